@@ -85,6 +85,7 @@ class MultiPaxosNode(Entity):
         self._slot_futures: dict[int, SimFuture] = {}  # slot -> future
         self._slot_commands: dict[int, Any] = {}  # slot -> command
         self._slot_acks: dict[int, int] = {}  # slot -> ack count
+        self._slot_ackers: dict[int, set[str]] = {}  # slot -> distinct acceptors
         self._pending_commands: list[tuple[Any, SimFuture]] = []
 
         # Phase 1 state
@@ -124,6 +125,11 @@ class MultiPaxosNode(Entity):
         """Submit a command for consensus.
 
         Returns a SimFuture resolving with (index, result) on commit.
+
+        On the leader the command is assigned the next slot; the Accept round
+        for it goes out with the leader's next heartbeat tick (``submit`` cannot
+        return events itself), so it is decided within one heartbeat interval
+        plus a round trip.
         """
         future = SimFuture()
 
@@ -144,7 +150,8 @@ class MultiPaxosNode(Entity):
         self._log.append(self._current_ballot.number, command)
         self._slot_futures[slot] = future
         self._slot_commands[slot] = command
-        self._slot_acks[slot] = 1  # self
+        self._slot_ackers[slot] = {self.name}  # self
+        self._slot_acks[slot] = 1
 
     def start(self) -> list[Event]:
         """Start by attempting to become leader."""
@@ -285,8 +292,7 @@ class MultiPaxosNode(Entity):
         events.extend(self._send_heartbeat())
 
         # Replicate uncommitted entries
-        for slot_idx in range(self._log.commit_index + 1, self._log.last_index + 1):
-            events.extend(self._replicate_slot(slot_idx))
+        events.extend(self._replicate_uncommitted())
 
         return events
 
@@ -346,9 +352,11 @@ class MultiPaxosNode(Entity):
         metadata = event.context.get("metadata", {})
         slot = metadata["slot"]
 
-        if slot not in self._slot_acks:
-            self._slot_acks[slot] = 0
-        self._slot_acks[slot] += 1
+        # Count each acceptor once per slot: Accepts are re-sent on every
+        # heartbeat tick until the slot commits, so an acceptor may answer twice.
+        ackers = self._slot_ackers.setdefault(slot, set())
+        ackers.add(metadata.get("from") or metadata.get("source"))
+        self._slot_acks[slot] = len(ackers)
 
         if self._slot_acks[slot] >= self.quorum_size and slot > self._log.commit_index:
             newly_committed = self._log.advance_commit(slot)
@@ -364,7 +372,14 @@ class MultiPaxosNode(Entity):
         if metadata.get("self_heartbeat"):
             if not self._is_leader:
                 return None
-            return self._send_heartbeat()
+            # The tick also drives replication: (re-)send the Accept for every
+            # assigned slot that is not committed yet. This is what gets a
+            # command passed to submit() decided (submit cannot return events),
+            # and it retries a slot whose Accepts or acks were lost. Accepts
+            # are idempotent on the acceptors and acks are counted per acceptor.
+            events = self._send_heartbeat()
+            events.extend(self._replicate_uncommitted())
+            return events
 
         ballot = Ballot(metadata.get("ballot_number", 0), metadata.get("ballot_node", ""))
         leader_commit = metadata.get("commit_index", 0)
@@ -402,6 +417,13 @@ class MultiPaxosNode(Entity):
             self._is_leader = False
             self._leader_established = False
         return []
+
+    def _replicate_uncommitted(self) -> list[Event]:
+        """Send Accepts for every slot in the log that is not committed yet."""
+        events: list[Event] = []
+        for slot_idx in range(self._log.commit_index + 1, self._log.last_index + 1):
+            events.extend(self._replicate_slot(slot_idx))
+        return events
 
     def _replicate_slot(self, slot: int) -> list[Event]:
         entry = self._log.get(slot)
